@@ -41,8 +41,25 @@ def _thread_fence_between(events, i0, i1, kinds):
     return False
 
 
+def check_representation(mods):
+    """The rules are stated over ringbuf_t = {bufp, buf_len, readi, writei}.  A further member that the operations' results or
+    index updates depend on (a cached copy of the peer's index, a 'full' hint) is state the rules know nothing about: exit 2."""
+    from .purity import member_influences_protocol
+    for m in mods:
+        tid = m.di_by_name.get(STRUCT) or m.di_by_name.get(STRUCT[:-2])
+        if not tid:
+            continue
+        have = set(p_.split(".")[0].split("[")[0] for p_, o, s_, t in m.di_leaves(tid))
+        for f in sorted(have - {"bufp", "buf_len", "readi", "writei"}):
+            if any(member_influences_protocol(mm, (STRUCT, STRUCT[:-2]), f, ("bufp", "buf_len", "readi", "writei")) for mm in mods):
+                raise AnalysisError("anchor vanished: ringbuf_t carries additional state (%s) that its operations depend on: the ring's "
+                                    "representation changed and the rules stated over {bufp, buf_len, readi, writei} cannot decide this tree" % f)
+        return
+
+
 def ringbuf_functions(mods):
     """(module, fn, set of fields stored atomically/plainly, touched?)"""
+    check_representation(mods)
     out = []
     for m in mods:
         for fn in m.defined_functions():
